@@ -13,6 +13,10 @@ pub struct GenCfg {
     pub faults: bool,
     /// weights of the history-length classes: empty, short, medium, boundary-256, long, boundary-64k, boundary-16M
     pub classes: [u64; 7],
+    /// also generate sub-element counts that do not fit the entry's own count/length field (PPTT
+    /// private resources > 58, CXIMS bitmaps > 255). Entry framing is then C18's matter, but table
+    /// checksum and Length must still hold, so only the C01/C02 batches turn this on.
+    pub oversize: bool,
 }
 
 pub const TABLES: [K; 13] = [K::Xsdt, K::Mcfg, K::Madt, K::Srat, K::Slit, K::Hmat, K::Pptt, K::Rhct, K::Rimt, K::Viot, K::Cedt, K::Hest, K::Rqsc];
@@ -105,7 +109,7 @@ fn small_count(rng: &mut Rng, max: u64) -> u64 {
     }
 }
 
-fn gen_entry(rng: &mut Rng, subject: K, h: &mut HandleCounts, faults: bool, cheap: bool) -> Op {
+fn gen_entry(rng: &mut Rng, subject: K, h: &mut HandleCounts, faults: bool, cheap: bool, oversize: bool) -> Op {
     use K::*;
     // tail args a[9], a[10] steer optional per-entry fault injection (sink abort on the entry)
     let tail = |rng: &mut Rng, mut op: Op| -> Op {
@@ -233,7 +237,8 @@ fn gen_entry(rng: &mut Rng, subject: K, h: &mut HandleCounts, faults: bool, chea
             } else {
                 let mut s = options(rng, &[PnPhysical, PnValid, PnThread, PnLeaf, PnIdentical]);
                 if h.cache > 0 {
-                    for _ in 0..small_count(rng, 58) {
+                    let n = if oversize && rng.chance(1, 12) { 59 + rng.below(40) } else { small_count(rng, 58) };
+                    for _ in 0..n {
                         s.push(Op::new(PnAddCache).a(&[refidx(rng, h.cache)]));
                     }
                     shuffle(rng, &mut s);
@@ -333,7 +338,8 @@ fn gen_entry(rng: &mut Rng, subject: K, h: &mut HandleCounts, faults: bool, chea
                 Op::new(CeCfmws).a(&[rng.val(64), rng.val(64), rng.below(2), rng.below(7), w, rng.val(16)]).s(s)
             }
             2 => {
-                let s = (0..small_count(rng, 255)).map(|_| Op::new(CxXormap).a(&[rng.val(64)])).collect();
+                let n = if oversize && rng.chance(1, 12) { 256 + rng.below(40) } else { small_count(rng, 255) };
+                let s = (0..n).map(|_| Op::new(CxXormap).a(&[rng.val(64)])).collect();
                 Op::new(CeCxims).a(&[rng.below(7)]).s(s)
             }
             _ => {
@@ -370,8 +376,13 @@ fn gen_entry(rng: &mut Rng, subject: K, h: &mut HandleCounts, faults: bool, chea
                     let idk = rng.below(5);
                     let mut o = Op::new(RqRes).a(&[rng.below(2), rng.val(16), idk, rng.val(64), rng.val(64)]);
                     if idk == 4 {
-                        let extra = rng.below(30) as usize;
-                        o.b = rng.bytes(12 + extra);
+                        // vendor-specific payload: normally Resource ID 1+2 (12 bytes) plus data, but any length is accepted
+                        let n = match rng.below(6) {
+                            0 => rng.below(12) as usize,
+                            1 => 12,
+                            _ => 12 + rng.below(30) as usize,
+                        };
+                        o.b = rng.bytes(n);
                     }
                     o
                 })
@@ -469,7 +480,7 @@ pub fn gen_trace(rng: &mut Rng, cfg: &GenCfg) -> Op {
                     ops.push(Op::new(ObsAbort).a(&[rng.next() & 0xff_ffff]));
                     continue;
                 }
-                let op = gen_entry(rng, subject, &mut h, inject, cheap);
+                let op = gen_entry(rng, subject, &mut h, inject, cheap, cfg.oversize);
                 if subject == Viot {
                     // VIOT handles are 16-bit offsets: keep the image below 65536 bytes (beyond is C18's matter)
                     let l = if matches!(op.k, ViPciRange | ViMmioEp) { 24 } else { 16 };
